@@ -795,7 +795,14 @@ Inductive pfield :=
 | P_eui (k : nat)         (* EUI48 / EUI64: euiToString / dashed pairs, ParseUint base 16 *)
 | P_nodeid (up : bool)   (* NID / L64: %0.16x, %0.16X in four groups / stringToNodeID *)
 | P_float                (* GPOS: printed verbatim / strconv.ParseFloat must accept it (modelled for plain decimals) *)
-| P_time.                (* RRSIG expiration, inception: TimeToString / StringToTime, else ParseUint 32 *)
+| P_time                 (* RRSIG expiration, inception: TimeToString / StringToTime, else ParseUint 32 *)
+(* B05b *)
+| P_hit                  (* HIP HIT: printed verbatim / a non-empty token, HitLength := uint8(len/2) *)
+| P_pk                   (* HIP public key: verbatim / a non-empty token that base64-decodes, PublicKeyLength := uint16(len decoded) *)
+| P_names                (* HIP rendezvous servers: sprintName each / toAbsoluteName of every zString to the end of the line *)
+| P_ip6                  (* AAAA: "::ffff:" + dotted quad when To4() != nil, else net.IP.String / net.ParseIP and a colon in the token *)
+| P_ipsecgw              (* IPSECKEY: gateway type, algorithm, gateway in the form the type selects / parseAddrHostUnion *)
+| P_amtgw.               (* AMTRELAY: discovery bit, type (low 7 bits), gateway / "0" or "1", ParseUint 8, parseAddrHostUnion *)
 
 (* field values as the Go structs hold them *)
 Inductive pval :=
@@ -807,12 +814,163 @@ Inductive pval :=
 | V_word (s : bytes)
 | V_types (l : list N)
 | V_sized (n : N) (s : bytes)     (* a length octet of the struct (SaltLength, HashLength) and its text *)
-| V_time (now : Z) (t : N).       (* a 32-bit time and the clock reading (Unix seconds) TimeToString sees *)
+| V_time (now : Z) (t : N)        (* a 32-bit time and the clock reading (Unix seconds) TimeToString sees *)
+| V_gw (gt alg : N) (addr host : bytes).  (* GatewayType (all 8 bits), Algorithm (IPSECKEY), GatewayAddr.To16() or nil, GatewayHost *)
 
 Definition is_rest (f : pfield) : bool :=
-  match f with P_qstrs | P_octet | P_hex _ | P_b64 | P_types | P_hinfo | P_uinfo | P_hexsplit => true | _ => false end.
+  match f with P_qstrs | P_octet | P_hex _ | P_b64 | P_types | P_hinfo | P_uinfo | P_hexsplit | P_names => true | _ => false end.
 
 Definition present_ip4 (a : bytes) : bytes := join_bytes [46] (map dec_bytes a).
+
+(* net.ParseIP on a dotted quad: four decimal fields 0..255 of one to three
+   digits, no leading zero *)
+Fixpoint split_on (sep : N) (s : bytes) (cur : bytes) : list bytes :=
+  match s with
+  | [] => [rev cur]
+  | c :: r => if c =? sep then rev cur :: split_on sep r [] else split_on sep r (c :: cur)
+  end.
+Definition parse_ip4_field (f : bytes) : option N :=
+  match f with
+  | [] => None
+  | c :: r =>
+    if (3 <? length f)%nat then None
+    else if (c =? 48) && negb (is_nil r) then None
+    else match parse_uint f 8 with Some v => Some v | None => None end
+  end.
+Definition parse_ip4 (s : bytes) : option bytes :=
+  match map parse_ip4_field (split_on 46 s []) with
+  | [Some a; Some b; Some c; Some d] => Some [a; b; c; d]
+  | _ => None
+  end.
+
+(* ---- 16-octet addresses (net.IP values are seen through To16(): nil is the
+   empty list, a 4-octet slice is its IPv4-mapped form) ---- *)
+Definition is_v4mapped (a : bytes) : bool :=
+  match a with
+  | [a0; a1; a2; a3; a4; a5; a6; a7; a8; a9; a10; a11; _; _; _; _] =>
+    forallb (N.eqb 0) [a0; a1; a2; a3; a4; a5; a6; a7; a8; a9] && (a10 =? 255) && (a11 =? 255)
+  | _ => false
+  end.
+Definition v4mapped (q : bytes) : bytes := [0; 0; 0; 0; 0; 0; 0; 0; 0; 0; 255; 255] ++ q.
+Fixpoint groups16 (a : bytes) : list N :=
+  match a with hi :: lo :: r => (hi * 256 + lo) :: groups16 r | _ => [] end.
+Definition hexdig (x : N) : N := if x <? 10 then 48 + x else 87 + x.
+(* netip appendHex: lower case, no leading zeros *)
+Definition hex_word (g : N) : bytes :=
+  if g <? 16 then [hexdig g]
+  else if g <? 256 then [hexdig (g / 16); hexdig (g mod 16)]
+  else if g <? 4096 then [hexdig (g / 256); hexdig (g / 16 mod 16); hexdig (g mod 16)]
+  else [hexdig (g / 4096 mod 16); hexdig (g / 256 mod 16); hexdig (g / 16 mod 16); hexdig (g mod 16)].
+Fixpoint zrun (gs : list N) : nat :=
+  match gs with g :: r => if g =? 0 then S (zrun r) else O | [] => O end.
+(* netip.Addr.AppendTo (string6): the longest run of two or more zero groups, the leftmost of equals *)
+Fixpoint best_run (gs : list N) (i zs ze : nat) : nat * nat :=
+  match gs with
+  | [] => (zs, ze)
+  | _ :: r => let l := zrun gs in
+              if (2 <=? l)%nat && (ze - zs <? l)%nat then best_run r (S i) i (i + l) else best_run r (S i) zs ze
+  end.
+Fixpoint ip6_go (fuel i : nat) (gs : list N) (zs ze : nat) : bytes :=
+  match fuel with
+  | O => []
+  | S f =>
+    if (8 <=? i)%nat then []
+    else if (i =? zs)%nat then
+      [58; 58] ++ (if (8 <=? ze)%nat then [] else hex_word (nth ze gs 0) ++ ip6_go f (S ze) gs zs ze)
+    else (if (0 <? i)%nat then [58] else []) ++ hex_word (nth i gs 0) ++ ip6_go f (S i) gs zs ze
+  end.
+Definition present_ip6 (a : bytes) : bytes :=
+  let gs := groups16 a in let '(zs, ze) := best_run gs 0 255 255 in ip6_go 9 0 gs zs ze.
+(* net.IP.String *)
+Definition b_nil : bytes := [60; 110; 105; 108; 62].
+Definition ip_string (a : bytes) : bytes :=
+  if is_nil a then b_nil
+  else if is_v4mapped a then present_ip4 (skipn 12 a)
+  else present_ip6 a.
+(* AAAA.String *)
+Definition b_v4in6 : bytes := [58; 58; 102; 102; 102; 102; 58].
+Definition present_aaaa (a : bytes) : bytes :=
+  if is_nil a then [] else if is_v4mapped a then b_v4in6 ++ present_ip4 (skipn 12 a) else present_ip6 a.
+
+(* netip.parseIPv6 (no zone: net.ParseIP refuses every '%'): up to four hex
+   digits per group, one "::", an embedded dotted quad in the last four octets *)
+Fixpoint hexrun (s : bytes) (off : nat) (acc : N) : option (nat * N * bytes) :=
+  match s with
+  | c :: r => if is_hexdigit c then (if (3 <? off)%nat then None else hexrun r (S off) (acc * 16 + hexval c))
+              else Some (off, acc, s)
+  | [] => Some (off, acc, [])
+  end.
+Definition is_some {A} (o : option A) : bool := match o with Some _ => true | None => false end.
+Fixpoint ip6_parse_go (fuel : nat) (s : bytes) (ell : option nat) (acc : bytes) : option (bytes * option nat) :=
+  match fuel with
+  | O => None
+  | S f =>
+    if (16 <=? length acc)%nat then (if is_nil s then Some (acc, ell) else None)
+    else match hexrun s 0 0 with
+    | None => None
+    | Some (off, v, rest) =>
+      if (off =? 0)%nat then None else
+      let acc' := acc ++ [v / 256; v mod 256] in
+      match rest with
+      | [] => Some (acc', ell)
+      | c :: r1 =>
+        if c =? 46 then
+          if negb (is_some ell) && negb (length acc =? 12)%nat then None
+          else if (16 <? length acc + 4)%nat then None
+          else match parse_ip4 s with Some q => Some (acc ++ q, ell) | None => None end
+        else if negb (c =? 58) then None
+        else match r1 with
+             | [] => None
+             | c2 :: r2 =>
+               if c2 =? 58 then
+                 if is_some ell then None
+                 else if is_nil r2 then Some (acc', Some (length acc'))
+                 else ip6_parse_go f r2 (Some (length acc')) acc'
+               else ip6_parse_go f r1 ell acc'
+             end
+      end
+    end
+  end.
+(* at most eight groups are stored before the loop ends: fuel 9 is never exhausted *)
+Definition parse_ip6 (s : bytes) : option bytes :=
+  let lead := match s with c1 :: c2 :: _ => (c1 =? 58) && (c2 =? 58) | _ => false end in
+  let s1 := if lead then skipn 2 s else s in
+  let ell0 := if lead then Some O else None in
+  if lead && is_nil s1 then Some (repeat 0 16) else
+  match ip6_parse_go 9 s1 ell0 [] with
+  | None => None
+  | Some (acc, ell) =>
+    if (length acc <? 16)%nat then
+      match ell with
+      | None => None
+      | Some e => Some (firstn e acc ++ repeat 0 (16 - length acc) ++ skipn e acc)
+      end
+    else match ell with Some _ => None | None => Some acc end
+  end.
+(* netip.ParseAddr dispatches on the first of '.', ':', '%'; the result in 16-octet form *)
+Fixpoint first_sep (s : bytes) : N :=
+  match s with [] => 0 | c :: r => if (c =? 46) || (c =? 58) || (c =? 37) then c else first_sep r end.
+Definition parse_ip (s : bytes) : option bytes :=
+  let c := first_sep s in
+  if c =? 46 then match parse_ip4 s with Some q => Some (v4mapped q) | None => None end
+  else if c =? 58 then parse_ip6 s
+  else None.
+(* AAAA.parse: net.ParseIP and a colon in the token *)
+Definition parse_aaaa (s : bytes) : option bytes :=
+  match parse_ip s with Some a => if existsb (N.eqb 58) s then Some a else None | None => None end.
+
+(* IPSECKEY / AMTRELAY: what String() prints for the gateway; scan_rr.go parseAddrHostUnion *)
+Definition gateway_text (k : N) (addr host : bytes) : bytes :=
+  if (k =? 1) || (k =? 2) then ip_string addr else if k =? 3 then host else [46].
+Definition parse_gateway (text : bytes) (k : N) : res (bytes * bytes) :=
+  if k =? 0 then (if bytes_eqb text [46] then Ok ([], []) else Err "gateway")
+  else if (k =? 1) || (k =? 2) then
+    match parse_ip text with
+    | None => Err "gateway"
+    | Some a => if Bool.eqb (negb (is_v4mapped a)) (k =? 1) then Err "gateway" else Ok (a, [])
+    end
+  else if k =? 3 then match to_absolute_name text with Some n => Ok ([], n) | None => Err "gateway" end
+  else Ok ([], []).
 
 (* one field, without the blank that precedes it *)
 Definition present_field (f : pfield) (v : pval) : bytes :=
@@ -841,6 +999,13 @@ Definition present_field (f : pfield) (v : pval) : bytes :=
   | P_eui k, V_int n => eui_to_string k n
   | P_nodeid up, V_int n => nodeid_to_string up n
   | P_float, V_word s => s
+  | P_hit, V_sized _ h => h
+  | P_pk, V_sized _ w => w
+  | P_names, V_strs l => join_bytes [32] (map sprint_name l)
+  | P_ip6, V_ip4 a => present_aaaa a
+  | P_ipsecgw, V_gw gt alg addr host => dec_bytes gt ++ [32] ++ dec_bytes alg ++ [32] ++ gateway_text gt addr host
+  | P_amtgw, V_gw gt _ addr host =>
+    (if 128 <=? gt then [49] else [48]) ++ [32] ++ dec_bytes (gt mod 128) ++ [32] ++ gateway_text (gt mod 128) addr host
   | _, _ => []
   end.
 
@@ -849,32 +1014,11 @@ Fixpoint present_fields_go (first : bool) (G : list pfield) (vs : list pval) : b
   match G, vs with
   | f :: G', v :: vs' =>
     let sep := if first then []
-               else match f, v with P_types, V_types [] => [] | _, _ => [32] end in
+               else match f, v with P_types, V_types [] => [] | P_names, V_strs [] => [] | _, _ => [32] end in
     sep ++ present_field f v ++ present_fields_go false G' vs'
   | _, _ => []
   end.
 Definition present_fields (G : list pfield) (vs : list pval) : bytes := present_fields_go true G vs.
-
-(* net.ParseIP on a dotted quad: four decimal fields 0..255 of one to three
-   digits, no leading zero *)
-Fixpoint split_on (sep : N) (s : bytes) (cur : bytes) : list bytes :=
-  match s with
-  | [] => [rev cur]
-  | c :: r => if c =? sep then rev cur :: split_on sep r [] else split_on sep r (c :: cur)
-  end.
-Definition parse_ip4_field (f : bytes) : option N :=
-  match f with
-  | [] => None
-  | c :: r =>
-    if (3 <? length f)%nat then None
-    else if (c =? 48) && negb (is_nil r) then None
-    else match parse_uint f 8 with Some v => Some v | None => None end
-  end.
-Definition parse_ip4 (s : bytes) : option bytes :=
-  match map parse_ip4_field (split_on 46 s []) with
-  | [Some a; Some b; Some c; Some d] => Some [a; b; c; d]
-  | _ => None
-  end.
 
 (* the type list of NSEC / CSYNC: mnemonic (any case) or typeToInt of the token *)
 Fixpoint parse_types_go (ts : list tok) (acc : list N) : res (list N) :=
@@ -895,6 +1039,44 @@ Fixpoint parse_types_go (ts : list tok) (acc : list N) : res (list N) :=
     | _ => Err "bitmap"
     end
   end.
+
+(* HIP rendezvous servers: every zString through toAbsoluteName, blanks skipped *)
+Fixpoint parse_names_go (ts : list tok) (acc : list bytes) : res (list bytes) :=
+  match ts with
+  | [] => Ok acc
+  | t :: r =>
+    match t with
+    | TNewline => Ok acc
+    | TBlank => parse_names_go r acc
+    | TStr s =>
+      match to_absolute_name s with
+      | Some n => parse_names_go r (acc ++ [n])
+      | None => Err "names"
+      end
+    | _ => Err "names"
+    end
+  end.
+
+(* encoding/base64 StdEncoding.DecodeString (padded, not strict): CR and LF are
+   skipped anywhere; quanta of four alphabet characters; the last quantum may
+   end in one or two '='; nothing may follow the padding.  The number of
+   octets decoded, None when DecodeString reports an error. *)
+Definition b64_char (c : N) : bool :=
+  ((65 <=? c) && (c <=? 90)) || ((97 <=? c) && (c <=? 122)) || is_digit c || (c =? 43) || (c =? 47).
+Fixpoint b64_len_go (s : bytes) (acc : N) : option N :=
+  match s with
+  | [] => Some acc
+  | a :: b :: c :: d :: r =>
+    if negb (b64_char a && b64_char b) then None
+    else if b64_char c && b64_char d then b64_len_go r (acc + 3)
+    else if negb (is_nil r) then None
+    else if c =? 61 then (if d =? 61 then Some (acc + 1) else None)
+    else if b64_char c && (d =? 61) then Some (acc + 2)
+    else None
+  | _ => None
+  end.
+Definition b64_declen (s : bytes) : option N :=
+  b64_len_go (filter (fun c => negb ((c =? 13) || (c =? 10))) s) 0.
 
 Definition tok_text (t : tok) : bytes :=
   match t with
@@ -924,8 +1106,38 @@ Definition hinfo_chunks (l : list bytes) : res (list bytes) :=
    at its text only (a few parsers also look at the kind); at the end of the
    input the lexer keeps delivering zEOF, whose text is empty.  NAPTR reads
    its quoted strings token by token. *)
+Definition next_text (ts : list tok) : res (bytes * list tok) :=
+  match ts with [] => Ok ([], []) | t :: r => if is_err t then Err "lex" else Ok (tok_text t, r) end.
+(* three tokens with the tokens between them dropped unseen: c.Next() // zBlank *)
+Definition read_gw (amt : bool) (ts : list tok) : res (pval * list tok) :=
+  do p1 <- next_text ts; let '(t1, r1) := p1 in
+  do p2 <- next_text (tl r1); let '(t2, r2) := p2 in
+  if amt then
+    if negb (bytes_eqb t1 [48] || bytes_eqb t1 [49]) then Err "discovery" else
+    match parse_uint t2 8 with
+    | None => Err "int"
+    | Some n =>
+      (* GatewayType = 0x80 | n, written without bit operations *)
+      let gt := if bytes_eqb t1 [49] && (n <? 128) then n + 128 else n in
+      do p3 <- next_text (tl r2); let '(t3, r3) := p3 in
+      do g <- parse_gateway t3 (gt mod 128); Ok (V_gw gt 0 (fst g) (snd g), r3)
+    end
+  else
+    match parse_uint t1 8 with
+    | None => Err "int"
+    | Some gt =>
+      match parse_uint t2 8 with
+      | None => Err "int"
+      | Some alg =>
+        do p3 <- next_text (tl r2); let '(t3, r3) := p3 in
+        do g <- parse_gateway t3 gt; Ok (V_gw gt alg (fst g) (snd g), r3)
+      end
+    end.
+
 Definition read_single (f : pfield) (ts : list tok) : res (pval * list tok) :=
   match f with
+  | P_ipsecgw => read_gw false ts
+  | P_amtgw => read_gw true ts
   | P_qstr =>
     match ts with
     | TQuote :: TStr s :: TQuote :: r => Ok (V_word s, r)
@@ -978,6 +1190,13 @@ Definition read_single (f : pfield) (ts : list tok) : res (pval * list tok) :=
               | Some t => Ok (V_int t)
               | None => match parse_uint text 32 with Some t => Ok (V_int t) | None => Err "time" end
               end
+            | P_ip6 => match parse_aaaa text with Some a => Ok (V_ip4 a) | None => Err "ip6" end
+            | P_hit => if is_nil text then Err "hit" else Ok (V_sized ((lenN text / 2) mod 256) text)
+            | P_pk => if is_nil text then Err "pk"
+                      else match b64_declen text with
+                           | Some n => Ok (V_sized (n mod 65536) text)
+                           | None => Err "pk"
+                           end
             | _ => Err "field"
             end;
     Ok (v, r)
@@ -994,6 +1213,7 @@ Fixpoint parse_fields (G : list pfield) (ts : list tok) : res (list pval) :=
       match l with [s] => Ok [V_octet s] | _ => Err "octet" end
     | P_hex _ | P_b64 | P_hexsplit => do w <- ending_to_string ts; Ok [V_word w]
     | P_types => do l <- parse_types_go ts []; Ok [V_types l]
+    | P_names => do l <- parse_names_go ts []; Ok [V_strs l]
     | P_hinfo => do l <- ending_to_txt_slice ts; do c <- hinfo_chunks l; Ok [V_strs c]
     | P_uinfo => do l <- ending_to_txt_slice ts; Ok [V_octet (match l with [] => [] | s :: _ => s end)]
     | _ =>
@@ -1012,7 +1232,9 @@ Fixpoint parse_fields (G : list pfield) (ts : list tok) : res (list pval) :=
 (* what the text denotes on the wire, field by field *)
 Inductive mval :=
 | M_int (n : N) | M_name (u : list (N * bool)) | M_ip4 (a : bytes)
-| M_strs (l : list bytes) | M_octets (w : bytes) | M_types (l : list N).
+| M_strs (l : list bytes) | M_octets (w : bytes) | M_types (l : list N)
+| M_names (l : list (list (N * bool)))
+| M_gw (gt alg : N) (addr : bytes) (host : list (N * bool)).
 Definition meaning (f : pfield) (v : pval) : option mval :=
   match f, v with
   | P_uint _, V_int n => Some (M_int n)
@@ -1036,6 +1258,16 @@ Definition meaning (f : pfield) (v : pval) : option mval :=
   | P_eui _, V_int n | P_nodeid _, V_int n => Some (M_int n)
   | P_float, V_word s => Some (M_octets (unescape s))
   | P_time, V_time _ t => Some (M_int t)
+  | P_hit, V_sized _ h => Some (M_octets (unhex (string_of_bytes h)))
+  | P_pk, V_sized _ w => Some (M_octets w)
+  | P_names, V_strs l => Some (M_names (map name_units l))
+  | P_ip6, V_ip4 a => Some (M_ip4 a)
+  (* the member of the gateway union that the type selects goes to the wire *)
+  | P_ipsecgw, V_gw gt alg addr host =>
+    Some (M_gw gt alg (if (gt =? 1) || (gt =? 2) then addr else []) (name_units (if gt =? 3 then host else [])))
+  | P_amtgw, V_gw gt _ addr host =>
+    let k := gt mod 128 in
+    Some (M_gw gt 0 (if (k =? 1) || (k =? 2) then addr else []) (name_units (if k =? 3 then host else [])))
   | _, _ => None
   end.
 
@@ -1085,6 +1317,11 @@ Definition playout (t : N) : option (list pfield) :=
   else if t =? 106 then Some [P_uint 16; P_nodeid true]
   else if (t =? 46) || (t =? 24)
   then Some [P_type; P_algnum; P_uint 8; P_uint 32; P_time; P_time; P_uint 16; P_name; P_b64]
+  (* B05b *)
+  else if t =? 55 then Some [P_uint 8; P_hit; P_pk; P_names]
+  else if t =? 45 then Some [P_uint 8; P_ipsecgw; P_b64]
+  else if t =? 260 then Some [P_uint 8; P_amtgw]
+  else if t =? 28 then Some [P_ip6]
   else None.
 
 (* ------------------------------------------------------------------ *)
